@@ -467,7 +467,9 @@ def r3(ctx):
     f = ctx.func(f"{MAP}::Mapper._configure_inheritance")
     S, g = get_sub(ctx, f), None
     g = S.g
-    items = [n for m, k, kind, n in writes if k == f.key and kind == "item"]
+    # item stores into the map, also through a local alias (`shared = self.polymorphic_map; shared[ident] = self`)
+    items = [n for n in walk_local(f.node) if isinstance(n, ast.Subscript) and isinstance(n.ctx, ast.Store)
+             and any(is_attr_of(a, "polymorphic_map") for a in S.ctx_alts(n.value))]
     shares = [(n, st) for t, n, st in attr_stores(f.node) if t == "self.polymorphic_map"]
     ctx.require(items, f"{f.key}: no registration into polymorphic_map")
     bad = []
@@ -563,8 +565,399 @@ R.mutant("r3-parent-registered", MAP,
 R.mutant("r3-concrete-base-adopts-first", MAP,
          sub("        self.inherits.polymorphic_map.update(self.polymorphic_map)\n        self.polymorphic_map = self.inherits.polymorphic_map\n",
              "        self.polymorphic_map = self.inherits.polymorphic_map\n        self.inherits.polymorphic_map.update(self.polymorphic_map)\n"), "C42-R3")
-R.mutant("r3-foreign-writer", "orm/decl_base.py",
-         sub("def _as_declarative(", "def _forget_identity(mapper, ident):\n    mapper.polymorphic_map.pop(ident, None)\n\n\ndef _as_declarative("), "C42-R3")
+R.mutant("r3-foreign-writer", "orm/util.py",
+         sub("def _entity_corresponds_to(", "def _forget_identity(mapper, ident):\n    mapper.polymorphic_map.pop(ident, None)\n\n\ndef _entity_corresponds_to("), "C42-R3")
 R.mutant("benign-r3-locals", MAP,
          sub("                        )\n                    )\n                self.polymorphic_map[self.polymorphic_identity] = self\n",
              "                        )\n                    )\n                ident = self.polymorphic_identity\n                shared = self.polymorphic_map\n                shared[ident] = self\n"), None)
+
+
+# ---------------------------------------------------------------------- C42-R4: new objects carry their own mapper's identity
+@R.rule("C42-R4", floor=4, template="T-FLOW",
+        desc="the identity setter (shared by every mapper of the hierarchy) stamps the identity of the INSTANCE's mapper; inheriting "
+             "mappers adopt setter / attribute key / validator of one ancestor when they see the discriminator; the init hook calls the "
+             "setter of the instance's mapper; bulk INSERT defaults the discriminator to the mapper's identity")
+def r4(ctx):
+    f = ctx.func(f"{MAP}::Mapper._configure_polymorphic_setter")
+    S = get_sub(ctx, f)
+    defs = {d.name: d for d in nested_defs(f.node)}
+    setters = set()
+    for t, n, st in attr_stores(f.node):
+        if t == "self._set_polymorphic_identity":
+            for a in S.alts(st.value, S.g.nodes_for(st)[0]):
+                if isinstance(a, ast.Name) and a.id in defs:
+                    setters.add(a.id)
+    ctx.require(setters, f"{f.key}: no locally defined identity setter is installed")
+    bad = []
+    for nm in sorted(setters):
+        d = defs[nm]
+        SD = get_sub(ctx, d)
+        own = [a.arg for a in d.args.args]
+        sets = [c for c in calls_in(d) if isinstance(c.func, ast.Attribute) and c.func.attr == "set" and len(c.args) >= 3]
+        if not sets:
+            bad.append("the setter sets nothing")
+        for c in sets:
+            for a in SD.ctx_alts(c.args[2]):
+                if not is_attr_of(a, "polymorphic_identity"):
+                    bad.append(f"the discriminator attribute is set to `{unparse(a)[:50]}`, not to a polymorphic_identity")
+                elif root_name(a) not in own:
+                    bad.append(f"the discriminator attribute is set to `{unparse(a)[:50]}`: the identity of the mapper that DEFINED the setter. "
+                               "Sub-mappers reuse this function, so Engineer() would be stored (and reloaded) as a Person")
+            for a in SD.ctx_alts(c.args[0]):
+                if root_name(a) not in own:
+                    bad.append("the value is set on something other than the instance state handed in")
+    ctx.check(not bad, f"{f.key}:setter-uses-instance-mapper", "; ".join(sorted(set(bad))),
+              "<state>.manager.mapper.polymorphic_identity", loc(f, defs[sorted(setters)[0]]))
+    # ---- adoption by inheriting mappers
+    trio = ("_set_polymorphic_identity", "_polymorphic_attr_key", "_validate_polymorphic_identity")
+    adopted: Dict[str, Set[str]] = {}
+    guards_ok: Dict[str, bool] = {}
+    for t, n, st in attr_stores(f.node):
+        nm = t[5:] if t.startswith("self.") else None
+        if nm not in trio:
+            continue
+        at = S.g.nodes_for(st)[0]
+        for a in S.alts(st.value, at):
+            r = getattr_norm(a)
+            if r is not None and r[1] == nm and not _name(r[0], "self"):
+                adopted.setdefault(nm, set()).add(ast.dump(r[0]))
+                g_ok = any((not pol) and any(none_test(x) is not None and is_attr_of(none_test(x), "polymorphic_on", "self") for x in al)
+                           for al, pol, tt in guard_atoms_at(S, at))
+                guards_ok[nm] = guards_ok.get(nm, True) and g_ok
+    bad = []
+    for nm in trio:
+        if nm not in adopted:
+            bad.append(f"an inheriting mapper does not adopt its ancestor's {nm}")
+    if len({frozenset(v) for v in adopted.values()}) > 1:
+        bad.append("setter, attribute key and validator are adopted from different mappers")
+    for nm, okg in guards_ok.items():
+        if not okg:
+            bad.append(f"{nm} is adopted although the inheriting mapper does not see the discriminator column")
+    ctx.check(not bad, f"{f.key}:inheriting-mapper-adopts-setter", "; ".join(sorted(set(bad))) + " -- Engineer() would be flushed with a NULL discriminator",
+              "all three from the same ancestor, when self.polymorphic_on is present", loc(f))
+    # ---- init hook
+    f2 = ctx.func(f"{MAP}::_event_on_init")
+    S2 = get_sub(ctx, f2)
+    calls = [c for c in calls_in(f2.node) if isinstance(c.func, ast.Attribute) and c.func.attr == "_set_polymorphic_identity"]
+    bad = []
+    if not calls:
+        bad.append("the init hook never stamps the identity")
+    for c in calls:
+        st_param = f2.params[0]
+        if not (c.args and _name(c.args[0], st_param)):
+            bad.append("the setter is not given the new instance's state")
+        for a in S2.ctx_alts(c.func.value):
+            if not (root_name(a) == st_param and is_attr_of(a, "mapper")):
+                bad.append(f"the setter of `{unparse(a)[:40]}` is used, not the one of the instance's mapper")
+        for al, pol, t in guard_atoms_at(S2, S2.node_of(c)):
+            if not (pol and all(root_name(x) == st_param for x in al)):
+                bad.append(f"stamping is conditional on `{unparse(orig(t))[:40]}`")
+    ctx.check(not bad, f"{f2.key}:stamps-on-init", "; ".join(sorted(set(bad))), "state.manager.mapper._set_polymorphic_identity(state)", loc(f2))
+    # ---- bulk insert default
+    f3 = ctx.func("orm/persistence.py::_collect_insert_commands")
+    S3 = get_sub(ctx, f3)
+    sd = [c for c in calls_in(f3.node) if isinstance(c.func, ast.Attribute) and c.func.attr in ("setdefault", "__setitem__") and len(c.args) == 2
+          and any(is_attr_of(a, "_polymorphic_attr_key") for a in S3.ctx_alts(c.args[0]))]
+    bad = []
+    if not sd:
+        bad.append("bulk INSERT does not default the discriminator")
+    for c in sd:
+        ka = {ast.dump(getattr_norm(a)[0]) for a in S3.ctx_alts(c.args[0])}
+        for a in S3.ctx_alts(c.args[1]):
+            if not is_attr_of(a, "polymorphic_identity") or ast.dump(getattr_norm(a)[0]) not in ka:
+                bad.append(f"the discriminator defaults to `{unparse(a)[:40]}`, not to the identity of the mapper whose key is used")
+    ctx.check(not bad, f"{f3.key}:bulk-default-identity", "; ".join(bad) + " -- session.bulk_insert_mappings(Engineer, [...]) rows load as Person / not at all",
+              "params.setdefault(mapper._polymorphic_attr_key, mapper.polymorphic_identity)", loc(f3, sd[0]) if sd else loc(f3))
+
+
+R.mutant("r4-setter-uses-defining-mapper", MAP,
+         sub("                polymorphic_identity = (\n                    state.manager.mapper.polymorphic_identity\n                )\n                if (\n                    polymorphic_identity is None",
+             "                polymorphic_identity = self.polymorphic_identity\n                if (\n                    polymorphic_identity is None"), "C42-R4")
+R.mutant("r4-attr-key-not-adopted", MAP,
+         sub("                        self._polymorphic_attr_key = (\n                            mapper._polymorphic_attr_key\n                        )\n", "                        self._polymorphic_attr_key = None\n"), "C42-R4")
+R.mutant("r4-setter-adopted-from-base-only", MAP,
+         sub("                        self._set_polymorphic_identity = (\n                            mapper._set_polymorphic_identity\n                        )\n",
+             "                        self._set_polymorphic_identity = (\n                            self.base_mapper._set_polymorphic_identity\n                        )\n"), "C42-R4")
+R.mutant("r4-init-hook-uses-base-mapper", MAP,
+         sub("        if instrumenting_mapper._set_polymorphic_identity:\n            instrumenting_mapper._set_polymorphic_identity(state)",
+             "        if instrumenting_mapper._set_polymorphic_identity and not instrumenting_mapper.inherits:\n            instrumenting_mapper._set_polymorphic_identity(state)"), "C42-R4")
+R.mutant("r4-bulk-default-base-identity", "orm/persistence.py",
+         sub("                    mapper._polymorphic_attr_key, mapper.polymorphic_identity\n", "                    mapper._polymorphic_attr_key, mapper.base_mapper.polymorphic_identity\n"), "C42-R4")
+R.mutant("benign-r4-setter-locals", MAP,
+         sub("                polymorphic_identity = (\n                    state.manager.mapper.polymorphic_identity\n                )\n                if (\n                    polymorphic_identity is None\n                    and state.manager.mapper.polymorphic_abstract\n                ):",
+             "                own_mapper = state.manager.mapper\n                polymorphic_identity = own_mapper.polymorphic_identity\n                if polymorphic_identity is None and own_mapper.polymorphic_abstract:"), None)
+
+
+# ---------------------------------------------------------------------- C42-R5: single-table criterion
+def _real_uses(ctx, f, attr: str) -> Tuple[int, int]:
+    """(reads of `.<attr>` in f, statements with an effect that the value read flows into: a store to an attribute / item,
+    an augmented assignment, a return, a call statement).  A None / truth test or a value that only ever reaches a local
+    name is not a use.  Flow through locals is a plain (flow insensitive) taint: cheap, and enough to tell "used" from
+    "only tested"."""
+    ctx.functions_analysed.add(f.key)
+    reads = {id(n) for n in walk_local(f.node) if isinstance(n, ast.Attribute) and n.attr == attr and isinstance(n.ctx, ast.Load)}
+    tainted: Set[str] = set()
+
+    def carries(e) -> bool:
+        return any(id(n) in reads or (isinstance(n, ast.Name) and isinstance(n.ctx, ast.Load) and n.id in tainted) for n in ast.walk(e))
+
+    def local_targets(tg) -> Optional[List[str]]:
+        leaves = tg.elts if isinstance(tg, (ast.Tuple, ast.List)) else [tg]
+        out = []
+        for x in leaves:
+            if isinstance(x, ast.Starred):
+                x = x.value
+            if isinstance(x, (ast.Tuple, ast.List)):
+                sub_ = local_targets(x)
+                if sub_ is None:
+                    return None
+                out.extend(sub_)
+            elif isinstance(x, ast.Name):
+                out.append(x.id)
+            else:
+                return None
+        return out
+    stmts = [n for n in walk_local(f.node) if isinstance(n, ast.stmt)]
+    changed = True
+    while changed:
+        changed = False
+        for st in stmts:
+            val, tgs = None, []
+            if isinstance(st, ast.Assign):
+                val, tgs = st.value, st.targets
+            elif isinstance(st, ast.AnnAssign) and st.value is not None:
+                val, tgs = st.value, [st.target]
+            elif isinstance(st, ast.For):
+                val, tgs = st.iter, [st.target]
+            if val is None or not carries(val):
+                continue
+            for tg in tgs:
+                for nm in local_targets(tg) or []:
+                    if nm not in tainted:
+                        tainted.add(nm)
+                        changed = True
+    real = 0
+    for st in stmts:
+        if isinstance(st, ast.Assign):
+            if all(local_targets(t) is not None for t in st.targets):
+                continue
+            val = st.value
+        elif isinstance(st, ast.AugAssign):
+            val = st.value
+        elif isinstance(st, ast.Return) and st.value is not None:
+            val = st.value
+        elif isinstance(st, ast.Expr) and isinstance(st.value, ast.Call):
+            val = st.value
+        else:
+            continue
+        if carries(val):
+            real += 1
+    return len(reads), real
+
+
+@R.rule("C42-R5", floor=9, template="T-FLOW/T-PATH",
+        desc="single-table criterion = discriminator IN identities of self_and_descendants (guarded by single / inherits / "
+             "polymorphic_on); _adjust_for_extra_criteria turns every registered entity's component into a WHERE criterion on every "
+             "path; registration sites test the criterion; every other reader conjoins / forwards it")
+def r5(ctx):
+    # ---- T1 component
+    f = ctx.func(f"{MAP}::Mapper._single_table_criteria_component")
+    S = get_sub(ctx, f)
+    rets = [r_ for r_ in returns_in(f.node) if r_.value is not None and not is_none_const(r_.value)]
+    bad = []
+    if not rets:
+        bad.append("no criterion component is produced")
+    for r_ in rets:
+        at = S.node_of(r_.value)
+        for a in S.alts(r_.value, at):
+            if not (isinstance(a, ast.Tuple) and len(a.elts) == 2):
+                bad.append(f"component is `{unparse(a)[:50]}`, not (discriminator column, identities)")
+                continue
+            col, ids = a.elts
+            if not any(is_attr_of(n, "polymorphic_on", "self") for n in ast.walk(col)):
+                bad.append("the criterion is not on the mapper's polymorphic_on column")
+            comps = [n for n in ast.walk(ids) if isinstance(n, (ast.GeneratorExp, ast.ListComp, ast.SetComp))]
+            if len(comps) != 1:
+                bad.append("identities are not collected by one iteration over the hierarchy")
+                continue
+            gen = comps[0].generators[0]
+            if not is_attr_of(gen.iter, "self_and_descendants", "self"):
+                bad.append(f"identities are collected from `{unparse(gen.iter)[:40]}`, not from self.self_and_descendants: "
+                           "query(Manager) misses Boss(Manager) rows / returns Person rows")
+            if not (is_attr_of(comps[0].elt, "polymorphic_identity") and is_pseudo(getattr_norm(comps[0].elt)[0], ELEM)):
+                bad.append("what is collected is not each mapper's polymorphic_identity")
+            for cond in gen.ifs:
+                okc = isinstance(cond, ast.UnaryOp) and isinstance(cond.op, ast.Not) and is_attr_of(cond.operand, "polymorphic_abstract")
+                if not okc:
+                    bad.append(f"descendants are filtered by `{unparse(cond)[:40]}`")
+        want = {"single": False, "inherits": False, "polymorphic_on": False}
+        for al, pol, t in guard_atoms_at(S, at):
+            x = al[0]
+            if pol and is_attr_of(x, "single", "self"):
+                want["single"] = True
+            elif pol and is_attr_of(x, "inherits", "self"):
+                want["inherits"] = True
+            elif (not pol) and none_test(x) is not None and is_attr_of(none_test(x), "polymorphic_on", "self"):
+                want["polymorphic_on"] = True
+            else:
+                bad.append(f"the criterion exists only if `{unparse(orig(t))[:40]}` is {pol}")
+        for k, v in want.items():
+            if not v:
+                bad.append(f"the criterion is produced without testing self.{k} (a base / joined-table mapper would filter too)")
+    ctx.check(not bad, f"{f.key}:discriminator-in-own-and-descendant-identities", "; ".join(sorted(set(bad))),
+              "(self.polymorphic_on, identities of self_and_descendants) iff single and inherits and polymorphic_on", loc(f))
+    # ---- T2 criterion
+    f2 = ctx.func(f"{MAP}::Mapper._single_table_criterion")
+    S2 = get_sub(ctx, f2)
+    bad = []
+    rets = [r_ for r_ in returns_in(f2.node) if r_.value is not None and not is_none_const(r_.value)]
+    if not rets:
+        bad.append("no criterion is produced")
+
+    def comp_item(e, i):
+        if isinstance(e, ast.Subscript) and isinstance(e.slice, ast.Constant) and e.slice.value == i:
+            return is_attr_of(e.value, "_single_table_criteria_component", "self")
+        return is_pseudo(e, ITEM) and is_attr_of(e.args[0], "_single_table_criteria_component", "self") and e.args[1].value == i
+    for r_ in rets:
+        for a in S2.alts(r_.value, S2.node_of(r_.value)):
+            okc = isinstance(a, ast.Call) and isinstance(a.func, ast.Attribute) and a.func.attr == "in_" and len(a.args) == 1 \
+                and comp_item(a.func.value, 0) and comp_item(a.args[0], 1)
+            if not okc:
+                bad.append(f"criterion is `{unparse(a)[:70]}`, not component[0].in_(component[1])")
+    ctx.check(not bad, f"{f2.key}:column-in-identities", "; ".join(bad), "component[0].in_(component[1])", loc(f2))
+    # ---- T3 / T4 select compile path
+    f3 = ctx.func(f"{CTXM}::_ORMSelectCompileState._adjust_for_extra_criteria")
+    S3, g = get_sub(ctx, f3), None
+    g = S3.g
+    comp_reads = [n for n in walk_local(f3.node) if isinstance(n, ast.Attribute) and n.attr == "_single_table_criteria_component"]
+    ctx.require(comp_reads, f"{f3.key}: the single-table component is never read")
+    bad = []
+    for r in comp_reads:
+        for a in S3.ctx_alts(r):
+            base = getattr_norm(a)[0]
+            if not is_attr_of(base, "mapper"):
+                bad.append(f"component read off `{unparse(base)[:40]}`")
+    loops = [n for n in walk_local(f3.node) if isinstance(n, ast.For)]
+    l1 = [lp for lp in loops if any(x is comp_reads[0] for st in lp.body for x in ast.walk(st))]
+    ctx.require(len(l1) == 1, f"{f3.key}: loop over the registered entities not found")
+    l1 = l1[0]
+    if not any(has_attr(a, "extra_criteria_entities") for a in S3.ctx_alts(l1.iter)):
+        bad.append("the loop that adds the criteria does not run over self.extra_criteria_entities")
+    ups = [c for st in l1.body for c in ast.walk(st) if isinstance(c, ast.Call) and isinstance(c.func, ast.Attribute) and c.func.attr in ("update", "add", "extend", "append")
+           and c.args and any(contains_orig(a, comp_reads[0]) for a in S3.ctx_alts(c.args[0]))]
+    if not ups:
+        bad.append("the identities of an entity's component are not collected")
+    else:
+        upn = [S3.node_of(c) for c in ups]
+        fors = [n.id for n in g.nodes if n.kind == "for" and n.stmt is l1 and not n.copy]
+        cut = set()
+        for n in g.nodes:
+            if n.kind != "test":
+                continue
+            for lab in ("true", "false"):
+                for t, pol in conj(n.stmt.test, lab == "true"):
+                    al = S3.alts(t, n.id)
+                    if pol and any(none_test(x) is not None and contains_orig(none_test(x), comp_reads[0]) for x in al):
+                        cut.add((n.id, lab))        # no component: not a single-inheritance entity
+                    if pol and any(isinstance(x, ast.Compare) and isinstance(x.ops[0], ast.In) and has_attr(x.comparators[0], "_join_entities") for x in al):
+                        cut.add((n.id, lab))        # joined entities get the criterion in their ON clause (_ORMJoin)
+        body = [b for b, lab in g.succ[fors[0]] if lab == "true" and b not in upn]
+        w = g.witness(body, fors + [g.exit], avoid=upn, edge_ok=lambda a, b, lab: lab != "exc" and (a, lab) not in cut)
+        if w is not None:
+            bad.append("a registered single-inheritance entity can pass the loop without contributing its identities: " + " -> ".join(g.describe_path(w))[:200])
+    ins = [c for c in calls_in(f3.node) if isinstance(c.func, ast.Attribute) and c.func.attr == "in_"]
+    l2 = [lp for lp in loops if lp is not l1 and any(x is c for c in ins for st in lp.body for x in ast.walk(st))]
+    if not l2:
+        bad.append("the collected identities are never turned into `discriminator IN (...)`")
+    else:
+        l2 = l2[0]
+        inc = [c for c in ins if any(x is c for st in l2.body for x in ast.walk(st))][0]
+        adds = [n.id for n in g.nodes if n.kind == "stmt" and not n.copy and isinstance(n.stmt, (ast.AugAssign, ast.Assign))
+                and any(x is n.stmt for st in l2.body for x in ast.walk(st))
+                and any(isinstance(a, (ast.BinOp, ast.Tuple, ast.List)) and contains_orig(a, inc) for a in S3.alts(n.stmt.value, n.id))]
+        fors2 = [n.id for n in g.nodes if n.kind == "for" and n.stmt is l2 and not n.copy]
+        if not adds:
+            bad.append("the IN criterion is built but not added to the criteria to apply")
+        else:
+            body = [b for b, lab in g.succ[fors2[0]] if lab == "true" and b not in adds]
+            if body and g.witness(body, fors2 + [g.exit], avoid=adds, edge_ok=no_exc) is not None:
+                bad.append("an iteration can skip adding the IN criterion")
+        wh = [n.id for n in g.nodes if n.kind == "stmt" and not n.copy and isinstance(n.stmt, (ast.AugAssign, ast.Assign))
+              and any(is_attr_of(t, "_where_criteria", "self") for t in ([n.stmt.target] if isinstance(n.stmt, ast.AugAssign) else n.stmt.targets))
+              and any(contains_orig(a, inc) for a in S3.alts(n.stmt.value, n.id))]
+        after = [b for b, lab in g.succ[fors2[0]] if lab == "false"]
+        if not wh:
+            bad.append("the criteria are never appended to self._where_criteria")
+        else:
+            inner_for = [n.id for n in g.nodes if n.kind == "for" and not n.copy and any(i in g.reachable([b for b, lab in g.succ[n.id] if lab == "true"], avoid=[n.id], edge_ok=no_exc) for i in wh)]
+            w = g.witness(after, [g.exit], avoid=wh + inner_for, edge_ok=no_exc)
+            if w is not None:
+                bad.append("a path after the criteria are assembled returns without appending them to self._where_criteria")
+    ctx.check(not bad, f"{f3.key}:every-registered-entity-filtered", "; ".join(sorted(set(bad))) + " -- select(Manager) on a single-table hierarchy returns every Person row",
+              "component -> merged identities -> polymorphic_on.in_() -> self._where_criteria on every path", loc(f3))
+    # registration sites
+    regs = []
+    for m in (ctx.index.module(CTXM),):
+        for fi in ctx.index.all_functions(m):
+            for n in walk_local(fi.node):
+                if isinstance(n, ast.Subscript) and isinstance(n.ctx, ast.Store) and is_attr_of(n.value, "extra_criteria_entities"):
+                    regs.append((fi, n))
+    ctx.require(len(regs) >= 3, f"only {len(regs)} registration site(s) of extra_criteria_entities")
+    for fi, n in regs:
+        SR = get_sub(ctx, fi)
+        okr = False
+        for al, pol, t in guard_atoms_at(SR, SR.node_of(n)):
+            for x in al:
+                disj = x.values if isinstance(x, ast.BoolOp) and isinstance(x.op, ast.Or) else [x]
+                for d in disj:
+                    for tt, pp in conj(d, pol):
+                        if (not pp) and none_test(tt) is not None and is_attr_of(none_test(tt), "_single_table_criterion"):
+                            okr = True
+        ctx.check(okr, f"{fi.key}:registers-single-inheritance-entity",
+                  "the entity is registered for extra criteria without `mapper._single_table_criterion is not None` being one of the reasons: "
+                  "a single-inheritance entity of this kind is not filtered", "registered when the mapper has a single-table criterion (or loader criteria)", loc(fi, n))
+    # ---- T5 other readers
+    readers = []
+    for m in ctx.index.all_modules():
+        if not m.relpath.startswith("orm/") or "_single_table_criterion" not in m.source or m.relpath == MAP:
+            continue
+        for fi in ctx.index.all_functions(m):
+            if fi.type_only or fi in [r_[0] for r_ in regs]:
+                continue
+            if any(isinstance(n, ast.Attribute) and n.attr == "_single_table_criterion" for n in walk_local(fi.node)):
+                readers.append(fi)
+    ctx.require(len(readers) >= 3, f"only {len(readers)} function(s) outside the select compile path read _single_table_criterion")
+    for fi in sorted(readers, key=lambda x: x.key):
+        nreads, real = _real_uses(ctx, fi, "_single_table_criterion")
+        ctx.check(real > 0, f"{fi.key}:criterion-applied",
+                  f"the {nreads} read(s) of _single_table_criterion are only tested, never conjoined / forwarded: the single-inheritance target is not filtered "
+                  "on this path (join to a subclass entity, relationship to a subclass, ORM UPDATE/DELETE of a subclass)",
+                  f"{nreads} read(s), {real} use(s) as operand / argument", loc(fi))
+
+
+R.mutant("r5-children-only", MAP,
+         sub("                for m in self.self_and_descendants\n                if not m.polymorphic_abstract\n            )\n\n            return (\n                self.polymorphic_on._annotate(",
+             "                for m in [self] + self._inheriting_mappers\n                if not m.polymorphic_abstract\n            )\n\n            return (\n                self.polymorphic_on._annotate("), "C42-R5")
+R.mutant("r5-joined-table-filtered-too", MAP,
+         sub("        if self.single and self.inherits and self.polymorphic_on is not None:\n\n            hierarchy", "        if self.inherits and self.polymorphic_on is not None:\n\n            hierarchy"), "C42-R5")
+R.mutant("r5-criterion-on-identity-list-swapped", MAP,
+         sub("            return component[0].in_(component[1])", "            return component[0].in_(component[1][:1])"), "C42-R5")
+R.mutant("r5-aliased-entities-skipped", CTXM,
+         sub("            if ext_info in self._join_entities:\n                continue\n", "            if ext_info in self._join_entities or ext_info.is_aliased_class:\n                continue\n"), "C42-R5")
+R.mutant("r5-criteria-not-appended-without-adapter", CTXM,
+         sub("            # else just concatenate our criteria to the final WHERE criteria\n            self._where_criteria += _where_criteria_to_add",
+             "            # else just concatenate our criteria to the final WHERE criteria\n            pass"), "C42-R5")
+R.mutant("r5-in-criterion-dropped", CTXM,
+         sub("            for adapter in adapters:\n                new_crit = adapter.traverse(new_crit)\n            _where_criteria_to_add += (new_crit,)",
+             "            for adapter in adapters:\n                new_crit = adapter.traverse(new_crit)"), "C42-R5")
+R.mutant("r5-column-entity-not-registered", CTXM,
+         sub("        ezero = self.entity_zero\n\n        single_table_crit = self.mapper._single_table_criterion\n        if (\n            single_table_crit is not None\n            or (\"additional_entity_criteria\", self.mapper)",
+             "        ezero = self.entity_zero\n\n        single_table_crit = self.mapper._single_table_criterion\n        if (\n            (\"additional_entity_criteria\", self.mapper)"), "C42-R5")
+R.mutant("r5-join-on-clause-not-augmented", "orm/util.py",
+         sub("                self.onclause = self.onclause & single_crit\n", "                pass\n"), "C42-R5")
+R.mutant("r5-bulk-criterion-dropped", "orm/bulk_persistence.py",
+         sub("            return_crit += (ext_info.mapper._single_table_criterion,)\n", "            pass\n"), "C42-R5")
+R.mutant("benign-r5-restructured", CTXM,
+         chain(sub("            if ext_info in self._join_entities:\n                continue\n", "            joined = ext_info in self._join_entities\n            if joined:\n                continue\n"),
+               sub("            for adapter in adapters:\n                new_crit = adapter.traverse(new_crit)\n            _where_criteria_to_add += (new_crit,)",
+                   "            for adapter in adapters:\n                new_crit = adapter.traverse(new_crit)\n            _where_criteria_to_add = _where_criteria_to_add + (new_crit,)")), None)
